@@ -393,6 +393,19 @@ def history_stage(ctx: Ctx, fixes: dict):
     for a in alpha:
         for tail in ([("del",)], [("inv",)]) if not ctx.quick else ([("del",)],):
             results.append(run_history(ctx, "duckdb", [a] + list(tail), fixes, "ex", cleanup_at_end=False))
+    # cache slots that point at user-owned tables, followed by every kind of operation that drops cache entries
+    droppers = [("rtf", "first_name", 1), ("rtf", "surname", 2), ("inv",), ("del",), ("predict",), ("cluster", 0), ("profile",)]
+    for slot, table in SLOT_TABLES.items():
+        for d in droppers if not ctx.quick else ctx.rng.sample(droppers, 4):
+            mid = ctx.rng.choice([("predict",), ("ctf", "surname"), ("fm",), ("est_u", 1)])
+            results.append(run_history(ctx, ctx.rng.choice(["duckdb", "sqlite"]),
+                                       [("regname", slot), mid, d, ("dropu", table, False)], fixes, "slot"))
+    # names that differ from a user object only in letter case: register_table and Linker(input_table_aliases=...)
+    for v in CASE_VARIANTS:
+        for backend in ("duckdb", "sqlite"):
+            kind = ctx.rng.choice(["reg", "reg_linker"])
+            results.append(run_history(ctx, backend, [("reg", v, False, 3) if kind == "reg" else ("reg_linker", v), ("predict",)],
+                                       fixes, "case"))
     ctx.log(f"catalog histories run: {len(results)}")
     for r in results:
         hist = r["history"]
@@ -528,7 +541,7 @@ def coq_cinit_static(fixes: dict) -> str:
 def run(ctx: Ctx):
     ctx.cov["rule"] = (
         "histories: seeded sequences (3..12 quick, ..25 thorough) over the C07 operations plus register_table (new name / existing "
-        "user table / user view / Splink look-alike name, overwrite=False), drop through Splink of user tables (force=False), realtime "
+        "user table / user view / Splink look-alike name / names differing from a user object only in letter case, overwrite=False; also through Linker(dataframe, input_table_aliases=[name])), the register_* entry points called with the NAME of a user-owned table (concat_with_tf, predict, tf lookup, labels, register_table) followed by every operation that drops cache entries, drop through Splink of user tables (force=False), realtime "
         "compare_records (cached / uncached), delete_tables_created_by_splink_from_db and invalidate_cache at random points, each "
         "history closed by a cleanup call (second wave: plus evaluation, m-training, unlinkables, profile/completeness, blocking analysis, multi-threshold clustering and graph metrics); persistent DuckDB and SQLite database files pre-populated with 6 user tables (names r, "
         "blocked_with_cols, __splink__df_concat, __splink__df_predict, a hashed look-alike, customers) and 2 views; plus every "
